@@ -1,3 +1,4 @@
+import BadgerModel.Driver.Log
 import BadgerModel.Driver.Loop
 /-! `bmd_log <engine>`: line-protocol driver (see CONVENTIONS.md). -/
 open Badger.Driver
@@ -6,4 +7,5 @@ def main (args : List String) : IO UInt32 := do
   let stdin ← IO.getStdin
   let stdout ← IO.getStdout
   match args with
+  | ["log"] => statelessLoop stdin stdout logStep; return 0
   | _ => IO.eprintln "usage: bmd_log <engine>"; return 2
